@@ -53,15 +53,6 @@ Proof.
       rewrite (proj1 A n sn En), (IH t A eq_refl). reflexivity.
 Qed.
 
-(** the guard on an argument: a relativity given explicitly comes with a PATH-STRING that is not absolute
-    ("If PATH-STRING is an absolute path, then RELATIVITY must not be given"); -rel-here is left out *)
-Definition explicit_ok (tbl : table) (a : parg) : bool :=
-  match pa_rel a with
-  | RNone => true
-  | RHere => false
-  | _ => negb (own_string_abs tbl a)
-  end.
-
 (** ** the PATH-STRING behind an explicit relativity *)
 Lemma explicit_cases : forall t ctor,
   (all_const (st_frags t) = true /\ str_abs (const_concat (st_frags t)) = true)
@@ -194,7 +185,8 @@ Proof.
     destruct st as [t|].
     + cbn [relativity_ctor] in HP. destruct (tok_is_reserved t); [discriminate|]. destruct (tok_is_optionlike t); [discriminate|].
       destruct t as [q fs]. unfold without_explicit_relativity in HP. cbn [st_frags pa_str] in *.
-      destruct fs as [|f1 fs1]; [discriminate|].
+      destruct fs as [|f1 fs1].
+      { injection HP as <-. unfold resolve in HR. cbn [resolve_sdv suffix_of_frags resolve_psdv bind] in HR. injection HR as <-. reflexivity. }
       destruct f1 as [c1|n1].
       * destruct fs1 as [|f2 fs2].
         -- injection HP as <-. unfold just_string_argument in HR. rewrite abs_iff in HR. cbn [subst option_map]. rewrite app_nil_r.
@@ -237,18 +229,6 @@ Proof.
 Qed.
 
 (** ** the table of definitions *)
-(** the guard on every path definition, in the table it is defined in *)
-Fixpoint defs_explicit_ok (here : text) (tbl : table) (defs : list (sym * sdef)) : bool :=
-  match defs with
-  | [] => true
-  | (n, d) :: rest =>
-      (match d with SDPath a => explicit_ok tbl a | _ => true end) &&
-      match compile_def here d with
-      | Some v => defs_explicit_ok here ((n, v) :: tbl) rest
-      | None => true
-      end
-  end.
-
 Lemma agree_nil : forall look, agree [] look.
 Proof. intros look. split; intros n x H; discriminate. Qed.
 
